@@ -9,8 +9,8 @@ use serde::Serialize;
 
 fn encode(fmt: &str, payload: &[u8]) -> Vec<u8> {
     match fmt {
-        "json" | "jsonval" => format!("[{}]", payload.iter().map(|b| b.to_string()).collect::<Vec<_>>().join(",")).into_bytes(),
-        "jsonstr" => format!("\"{}\"", payload.iter().map(|b| (b'a' + b % 26) as char).collect::<String>()).into_bytes(),
+        "json" | "jsonval" | "jsonR" => format!("[{}]", payload.iter().map(|b| b.to_string()).collect::<Vec<_>>().join(",")).into_bytes(),
+        "jsonstr" | "jsonstrR" => format!("\"{}\"", payload.iter().map(|b| (b'a' + b % 26) as char).collect::<String>()).into_bytes(),
         _ => {
             let mut v = (payload.len() as u64).to_le_bytes().to_vec();
             v.extend_from_slice(payload);
@@ -22,6 +22,10 @@ fn encode(fmt: &str, payload: &[u8]) -> Vec<u8> {
 fn de<T: DeserializeOwned>(fmt: &str, enc: &[u8]) -> Result<T, ()> {
     match fmt {
         "json" | "jsonstr" => serde_json::from_slice(enc).map_err(|_| ()),
+        // READER-fed routes: the deserialiser owns a transient buffer and calls `visit_bytes` / `visit_str` (the slice routes above
+        // call the `visit_borrowed_*` forms when the visitor has them)
+        "jsonstrR" | "jsonR" => serde_json::from_reader(std::io::Cursor::new(enc)).map_err(|_| ()),
+        "bincodeR" => bincode::deserialize_from(std::io::Cursor::new(enc)).map_err(|_| ()),
         // through serde_json::Value: unlike the text deserialiser, `from_value` hands the visitors a sequence WITH a size hint
         "jsonval" => serde_json::from_slice::<serde_json::Value>(enc).and_then(serde_json::from_value).map_err(|_| ()),
         _ => bincode::deserialize(enc).map_err(|_| ()),
@@ -30,7 +34,7 @@ fn de<T: DeserializeOwned>(fmt: &str, enc: &[u8]) -> Result<T, ()> {
 
 fn ser<T: Serialize>(fmt: &str, v: &T) -> Vec<u8> {
     match fmt {
-        "json" | "jsonstr" | "jsonval" => serde_json::to_vec(v).unwrap(),
+        "json" | "jsonstr" | "jsonval" | "jsonR" | "jsonstrR" => serde_json::to_vec(v).unwrap(),
         _ => bincode::serialize(v).unwrap(),
     }
 }
@@ -129,6 +133,13 @@ pub fn dispatch(op: &str, a: &[&str]) -> Option<Ans> {
             let uro = HeapBytes::from_slice_into_locked(&data).unwrap().munlock().unwrap().mprotect_readonly().unwrap();
             let c3 = uro.clone();
             let c4 = HeapBytes::from(data.as_slice()).clone();
+            // `munlock` is offered in every lock mode: on a region that is NOT locked it must leave the bytes alone
+            let twice = HeapBytes::from_slice_into_locked(&data).unwrap().munlock().unwrap().munlock().unwrap();
+            if twice.as_slice() != data { return Some((format!("mismatch munlock of an unlocked region changed the bytes: {}", hex(twice.as_slice())), ok(&v))); }
+            let ro_then_unlock = HeapBytes::from_slice_into_locked(&data).unwrap().munlock().unwrap().mprotect_readonly().unwrap().munlock().unwrap();
+            if ro_then_unlock.as_slice() != data { return Some((format!("mismatch munlock of an unlocked read-only region changed the bytes: {}", hex(ro_then_unlock.as_slice())), ok(&v))); }
+            let relocked = twice.mlock().unwrap();
+            if relocked.as_slice() != data { return Some((format!("mismatch re-locking after munlock·munlock changed the bytes: {}", hex(relocked.as_slice())), ok(&v))); }
             if c1.as_slice() != data || c2.as_slice() != data || c3.as_slice() != data || c4.as_slice() != data {
                 return Some((format!("mismatch clone locked={} lockedro={} unlockedro={} heap={}", hex(c1.as_slice()), hex(c2.as_slice()), hex(c3.as_slice()), hex(c4.as_slice())), ok(&v)));
             }
